@@ -8,11 +8,40 @@ from natives.c05 import task
 
 
 def expired_backstop(seed=0, tier="quick", **_):
+    r1 = _backstop(lost_event=False)
+    if r1.get("failed"):
+        return r1
+    r2 = _backstop(lost_event=True)
+    if r2.get("failed"):
+        return r2
+    return {"failed": False, "evaluations": r1["evaluations"] + r2["evaluations"], "distinct": 2,
+            "samples": [{"heartbeats": [60, 120, 180], "lost_branch_event": False}, {"heartbeats": [60, 120, 180], "lost_branch_event": True}]}
+
+
+def _backstop(lost_event):
     asl = {"StartAt": "P", "TimeoutSeconds": 0, "States": {"P": {"Type": "Parallel", "End": True, "Branches": [
         {"StartAt": "A", "States": {"A": task("stuck1")}}, {"StartAt": "B", "States": {"B": task("stuck2")}}]}}}
     sim = S.Sim(asl, {"x": 1}, tasks={"stuck1": lambda p, k: S.NOREPLY, "stuck2": lambda p, k: S.NOREPLY})
     guard = 0
-    while len(sim.requests) < 2 and sim.enabled() and guard < 60:            # run until both branch tasks are outstanding
+    if lost_event:
+        # one branch's start event is lost for good ("logged and dropped"): its result slot can never be filled and there
+        # is nothing to cancel, so the join state survives the first back-stop round; the later rounds must only delete it
+        while len(sim.requests) < 1 and sim.enabled() and guard < 60:
+            guard += 1
+            acts = sim.enabled()
+            pick = 0
+            for i, a in enumerate(acts):
+                if a[0] == "deliver":
+                    import json as _json
+                    st = _json.loads(sim.queue[a[1]][1])["context"].get("State", {})
+                    if st.get("Name") == "B":
+                        del sim.queue[a[1]]              # the event of branch B is dropped, never delivered
+                        pick = None
+                        break
+            if pick is None:
+                continue
+            sim.step(0)
+    while not lost_event and len(sim.requests) < 2 and sim.enabled() and guard < 60:   # run until both branch tasks are outstanding
         guard += 1
         sim.step(0)
     # the branch events are held by the join; their (task start / timeout) timers are lost -- e.g. the timer wheel of a
@@ -37,5 +66,5 @@ def expired_backstop(seed=0, tier="quick", **_):
     if sim.crashes:
         probs.append("; ".join(sim.crashes))
     if probs:
-        return {"failed": True, "evaluations": n, "input": {"heartbeats": [60, 120, 180]}, "detail": "; ".join(probs)}
+        return {"failed": True, "evaluations": n, "input": {"heartbeats": [60, 120, 180], "lost_branch_event": lost_event}, "detail": "; ".join(probs)}
     return {"failed": False, "evaluations": n, "distinct": n, "samples": [{"heartbeats": [60, 120, 180]}]}
